@@ -168,6 +168,11 @@ type Clause struct {
 	// Uses: when set, only the callee postconditions carrying one of these tags
 	// (and untagged ones) are kept in the queries of this clause's obligations.
 	Uses []string
+	// Stable: a two-state ensures clause of a writer's Write method that is
+	// reflexive and transitive (both checked), so that it also relates the
+	// states before and after any number of Write calls made by external
+	// write-through code (fmt.Fprintf, text/template).
+	Stable bool
 }
 
 type LoopContract struct {
@@ -209,6 +214,18 @@ type FuncContract struct {
 	LockProps []string        // properties the lock-discipline obligations belong to
 	MapOrder  []string        // properties the map-iteration order obligations belong to
 	Reveal    map[string]bool // tags of opaque callee ensures this function's proofs use
+	Lemmas    []*PointLemma   // program-point lemmas (proved where execution reaches the statement, then assumed)
+}
+
+// PointLemma: "//@ before "<source line>" k lemma [tag] E": E (over the entry
+// state old(...) and the current state) is proved when execution reaches the
+// k-th statement of the function whose source line reads <source line>, and
+// is assumed from there on -- an intermediate assertion kept in the contract
+// file instead of the code.
+type PointLemma struct {
+	Text string
+	K    int
+	Cl   *Clause
 }
 
 func loadProgram(repo string) (*Program, error) {
@@ -402,7 +419,7 @@ func representable(t types.Type, depth int) bool {
 
 var clauseKeywords = map[string]bool{"func": true, "requires": true, "ensures": true, "loop": true, "arith": true,
 	"safety": true, "inline": true, "pure": true, "trusted": true, "skip": true, "ghost": true, "lemma": true,
-	"modifies": true, "note": true, "opaque": true, "sweep": true, "typeinv": true, "noinv": true, "valueinv": true, "params": true, "noloopinv": true, "define": true, "reveal": true, "maporder": true, "named": true, "lockdiscipline": true}
+	"modifies": true, "note": true, "opaque": true, "sweep": true, "typeinv": true, "noinv": true, "valueinv": true, "params": true, "noloopinv": true, "define": true, "reveal": true, "maporder": true, "named": true, "lockdiscipline": true, "before": true}
 
 func (p *Program) parseContracts(pk *packages.Package) error {
 	for i, f := range pk.Syntax {
@@ -550,6 +567,10 @@ func (p *Program) parseContractFile(pkgName string, f *ast.File, fname string, e
 					cl.Opaque = true
 					rest = r2
 				}
+				if w2, r2 := splitWord(rest); w2 == "stable" && word == "ensures" {
+					cl.Stable = true
+					rest = r2
+				}
 				cl.Tags, cl.Text = splitTags(rest)
 				cl.Uses, cl.Text = splitUses(cl.Text)
 				for _, t := range cl.Tags {
@@ -639,6 +660,36 @@ func (p *Program) parseContractFile(pkgName string, f *ast.File, fname string, e
 				cur.Named = true
 			case "noinv":
 				cur.NoInv = true
+			case "before":
+				// before "<text>" k lemma [tags] E
+				r := strings.TrimSpace(rest)
+				if !strings.HasPrefix(r, "\"") {
+					return fmt.Errorf("%s: before: expected a quoted source line", where)
+				}
+				end := strings.Index(r[1:], "\" ")
+				if end < 0 {
+					return fmt.Errorf("%s: before: unterminated source line", where)
+				}
+				txt := r[1 : 1+end]
+				r = strings.TrimSpace(r[end+2:])
+				var k int
+				w2, r2 := splitWord(r)
+				if _, err := fmt.Sscanf(w2, "%d", &k); err != nil || k < 1 {
+					return fmt.Errorf("%s: before: bad occurrence number", where)
+				}
+				w3, r3 := splitWord(r2)
+				if w3 != "lemma" {
+					return fmt.Errorf("%s: before: expected 'lemma'", where)
+				}
+				cl := &Clause{Kind: "lemma", Line: where}
+				cl.Tags, cl.Text = splitTags(r3)
+				cl.Uses, cl.Text = splitUses(cl.Text)
+				for _, t := range cl.Tags {
+					cur.Props[propOfTag(t)] = true
+				}
+				cur.Lemmas = append(cur.Lemmas, &PointLemma{Text: txt, K: k, Cl: cl})
+				last = cl
+				lastStr = &last.Text
 			case "reveal":
 				if cur.Reveal == nil {
 					cur.Reveal = map[string]bool{}
